@@ -16,8 +16,8 @@ ASSUMPTIONS = ['model of the parser stack validated only by this correspondence 
                'the chars-text clause (only) assumes ctx_ok: the marker of an optional-chars argument (*, s, t<c>) is one character '
                '(true by construction of ctxwire.argkind_of; proved for the generated default context: C01_default_ctx_ok; '
                'shown necessary: C01_chars_text_needs_ctx_ok)']
-PARTIAL = ['C01_tolerant_nested_partial']
-REFUTED = ['C01_tolerant_nested_refuted']
+PARTIAL = []
+REFUTED = []
 CASE_TIMEOUT = 10.0
 case_from_desc = PC.case_from_desc
 distribution = PC.distribution
